@@ -18,6 +18,10 @@ def programs(ck):
             yield f"inj#{i}:{inj[1]}", inj[0], feats + ["injected:" + inj[1]]
     for name, src in inject.CURATED:
         yield "curated:" + name, src, ["curated"]
+    # every statement form at every kind of position (harness/forms.py)
+    import forms
+    for name, src in forms.programs():
+        yield "form:" + name, src, ["form"]
     if ck.tier == "thorough":
         import corpus_stdlib
         for p in corpus_stdlib.files(limit=250):
@@ -79,12 +83,17 @@ def main(argv):
             compiles = False
             ck.count("source_parses_but_does_not_compile")
         cfgs = gen_prog.CONFIGS if ck.tier == "thorough" else [gen_prog.CONFIGS[(len(src) + j * 3) % 8] for j in range(3)]
+        if name.startswith("form:") and ck.tier != "thorough":
+            if not compiles:
+                continue
+            k = (len(src) + ck.seed) % 4            # one configuration per unparser, the other two options rotating
+            cfgs = [gen_prog.CONFIGS[k], gen_prog.CONFIGS[4 + (k + 1) % 4]]
         for cfg in cfgs:
             v, text = observe(ol, src, cfg)
             ck.case(f"{cfg}|{src}")
             ck.count("verdict:" + v.split(":")[0])
             for f in feats:
-                if f.startswith("injected:") or f in ("curated", "stdlib-stripped"):
+                if f.startswith("injected:") or f in ("curated", "stdlib-stripped", "form"):
                     ck.count("stream:" + f.split(":")[0])
             if v.startswith("fail") and not compiles:
                 ck.count("not_demanded:source_does_not_compile")
@@ -96,7 +105,7 @@ def main(argv):
                     failing.append((name, src, cfg, v, text))
         if len(ck.samples) < 5 and name.startswith(("gen#3", "inj#5", "curated:w")):
             ck.sample({"case": name, "source": src[:600], "verdict": v})
-        if not name.startswith("stdlib"):
+        if not name.startswith("stdlib") and (not name.startswith("form:") or (len(k_pairs) + len(src)) % 3 == 0 or ck.tier == "thorough"):
             k_pairs.append((src, (cfgs[0][1], cfgs[0][2])))
     k_bad = []
     if b["driver_ok"]:
@@ -119,7 +128,8 @@ def main(argv):
                       "k_disagreements": [{"source": s[:800], "config": list(c), "detail": d[:400]} for s, c, d in k_bad[:10]]}, no_input=True)
     return ck.finish(
         rule="generated programs inside the supported fragment + programs with one unsupported construct / illegal placement injected at a random "
-             "statement or expression position + curated edge programs (+ stdlib modules with unsupported statements stripped, thorough) "
+             "statement or expression position + curated edge programs + the catalogue of statement forms (every assignment target / index / pattern shape, "
+             "13 augmented operators, value shapes, import forms, def / class / loop / if forms) x 12 placements, filtered to sources CPython compiles (+ stdlib modules with unsupported statements stripped, thorough) "
              "x 3 (quick) / 8 (thorough) option combinations; distinct by (config, source)",
         extra={"R_failures": len(failing), "K_disagreements": len(k_bad)},
         assumptions=["stdlib ast.unparse is CPython's: assumed to emit text that parses back to the tree, with line breaks only outside string tokens (checked by compile on every case)"])
